@@ -50,6 +50,7 @@ type CheckCfg struct {
 	BuildOnly   []GenCfg     `json:"build_only"` // C01: generate from each spec and compile the output (no harness): a compile error is the violation
 	JSONModel   bool         `json:"json_model"` // install the text-level model of encoding/json (jsonmodel.go)
 	MaxSteps    int          `json:"max_steps"`  // interpreter step bound per path (default 400000)
+	Interpret   []string     `json:"interpret_pkgs"` // packages whose functions are interpreted in this check (package state included) instead of being denied or run natively
 	Gen         *GenCfg      `json:"gen"`        // the code under check is the OUTPUT of the generator built from the repository
 }
 
@@ -348,6 +349,14 @@ func runOne(name string, cfg CheckCfg, tier, repo, only string, workers int, noN
 	}
 	if cfg.MaxSteps > 0 {
 		eng.maxSteps = cfg.MaxSteps
+	}
+	for _, p := range cfg.Interpret {
+		delete(eng.denyPkgs, p)
+		for n := range eng.nativeFns {
+			if strings.HasPrefix(n, p+".") || strings.HasPrefix(n, "(*"+p+".") || strings.HasPrefix(n, "("+p+".") {
+				delete(eng.nativeFns, n)
+			}
+		}
 	}
 	if cfg.JSONModel {
 		registerJSONModel(eng)
